@@ -93,6 +93,8 @@ def default_for(r, p):
                 "Mon, 02 Jan 2006 15:04:05 MST"][k]
     if p == "d":
         return ["1h", "90s", "1h30m", "500ms", "-2m", "5", "1d", "0", "2562047h47m16.854775807s", "2562048h"][k]
+    if p in OPQ_DFLT:
+        return OPQ_DFLT[p][k % 6]
     raise ValueError(p)
 
 
@@ -348,15 +350,50 @@ class NamedGen(TopGen):
         return "*map[string]" + g, "R M P " + p, p, "ptrmap"
 
 
+# leaf types with their own text form (convert.go: url.URL, net.IP, net.IPNet, regexp.Regexp are parsed by the
+# standard library; OLevel / OColor implement encoding.TextUnmarshaler, see opaque.go). Prim codes o<k>.
+OPQ = {"o0": "url.URL", "o1": "net.IP", "o2": "net.IPNet", "o3": "regexp.Regexp", "o4": "OLevel", "o5": "OColor"}
+OPQ_W = ["o0", "o0", "o1", "o1", "o1", "o2", "o3", "o4", "o4", "o4", "o5", "o5", "t", "t", "d", "d", "s", "i8", "u16", "b"]
+OPQ_DFLT = {"o0": ["http://example.com/a?b=c", "/rel/path", "mailto:x@y.z", "http://[::1", "%zz", "x"],
+            "o1": ["10.0.0.1", "::1", "2001:db8::68", "256.1.1.1", "1.2.3", "127.0.0.1"],
+            "o2": ["10.0.0.0/8", "192.168.1.7/24", "::1/128", "10.0.0.1", "10.0.0.0/33", "fe80::/10"],
+            "o3": ["^a+$", "[0-9]+", "x", "(", "a{2,1}", "\\d+"],
+            "o4": ["info", "WARN", "debug", "3", "verbose", "error"],
+            "o5": ["#fff", "red", "#A0b1C2", "#ggg", "blueish", "#12345"]}
+
+
+class OpqGen(TopGen):
+    """types with url.URL, net.IP, net.IPNet, regexp.Regexp and TextUnmarshaler leaves (also behind
+    pointers, in slices and as map values), mixed with time, duration and a few plain kinds"""
+
+    def gen_leaf(self):
+        r = self.r
+        p = r.pick(OPQ_W)
+        g = OPQ.get(p) or GO[p]
+        k = r.n(100)
+        if k < 44:
+            return g, "P " + p, p, "prim"
+        if k < 62:
+            return "*" + g, "R P " + p, p, "ptr"
+        if k < 80:
+            return "[]" + g, "L P " + p, p, "slice"
+        if k < 94:
+            return "map[string]" + g, "M P " + p, p, "map"
+        if k < 97:
+            return "*[]" + g, "R L P " + p, p, "ptrslice"
+        return "*map[string]" + g, "R M P " + p, p, "ptrmap"
+
+
 def main():
     n = int(sys.argv[1]) if len(sys.argv) > 1 else 400
     nreq = int(sys.argv[2]) if len(sys.argv) > 2 else 80
     nnamed = int(sys.argv[3]) if len(sys.argv) > 3 else 60
+    nopq = int(sys.argv[4]) if len(sys.argv) > 4 else 60
     r = Rng(20260926)
     out = []
-    out.append("// Code generated by gen_types.py %d %d %d; DO NOT EDIT.\n" % (n, nreq, nnamed))
+    out.append("// Code generated by gen_types.py %d %d %d %d; DO NOT EDIT.\n" % (n, nreq, nnamed, nopq))
     out.append("package main\n")
-    out.append('import (\n\t"net/http"\n\t"net/url"\n\t"time"\n\n\t"rivaas.dev/binding"\n)\n')
+    out.append('import (\n\t"net"\n\t"net/http"\n\t"net/url"\n\t"regexp"\n\t"time"\n\n\t"rivaas.dev/binding"\n)\n')
     out.append("var _ = time.Second\n")
     entries = []
     for k in range(n):
@@ -386,6 +423,16 @@ def main():
         out.extend(g.decls)
         out.append("type T%d struct {\n%s\n}\n" % (k, "\n".join(lines)))
         entries.append((k, term))
+    # types with opaque leaf kinds, fourth stream
+    r4 = Rng(20260929)
+    base = n + nreq + nnamed
+    for k in range(base, base + nopq):
+        g = OpqGen(r4, k)
+        lines, term = g.gen_struct(0, r4.rng(1, 3) if r4.chance(1, 4) else 0)
+        out.extend(g.decls)
+        out.append("type T%d struct {\n%s\n}\n" % (k, "\n".join(lines)))
+        entries.append((k, term))
+    out.append("var _ = net.IP(nil)\nvar _ *regexp.Regexp\n")
     out.append("var corpus = []typeEntry{")
     for k, term in entries:
         out.append("\t{Name: \"T%d\", New: func() any { return new(T%d) },\n"
